@@ -31,6 +31,7 @@ from .stmts import StmtMixin
 from .ops import is_const, z3bool
 
 DEOPT_ARGS = {"builtins." + n for n in ("len", "sorted", "set", "frozenset", "list", "tuple", "min", "max", "range", "enumerate", "zip", "reversed", "abs", "int", "float", "dict")} | {"fontTools.misc.fixedTools.otRound", "fontTools.misc.roundTools.otRound"}
+BIRTH = z3.Function("birth", T.RefSort, z3.IntSort())
 LOGGER_NAMES = {"logger", "LOGGER", "log", "timing_logger"}
 MUTATORS = {
     "append", "extend", "insert", "remove", "pop", "clear", "sort", "reverse", "update",
@@ -200,19 +201,40 @@ class Executor(ExprMixin, StmtMixin, LoopMixin):
         arr = self.field_array(st, cs.name, name)
         st.heap[(cs.name, name)] = z3.Store(arr, lift(recv), lift(v, ft))
 
+    # Allocation is modelled by birth stamps: every reference has a birth time (uninterpreted `birth`), the
+    # state carries the current time `now`; allocated(r) == birth(r) < now.  Creating an object takes a fresh
+    # reference born at `now` and advances the clock; calls and loops advance it by an unknown amount.
+    # (Linear arithmetic only: no array-subset constraints, so every solver of the portfolio can take part.)
+    def now(self, st):
+        if st.alloc is None:
+            st.alloc = z3.Int("now0")
+        return st.alloc
+
+    def is_allocated(self, st, r, at=None):
+        return BIRTH(r) < (at if at is not None else self.now(st))
+
+    def alloc_set(self, st):
+        """the current allocation set as a set value (for clauses that quantify over existing objects)"""
+        r = z3.Const("r!alloc", T.RefSort)
+        return z3.Lambda([r], BIRTH(r) < self.now(st))
+
     def new_object(self, st, cls: str) -> Val:
         r = fresh(T.Ref(cls), "new_" + cls)
-        if st.alloc is None:
-            st.alloc = z3.Const("alloc0", z3.ArraySort(T.RefSort, z3.BoolSort()))
-        st.assume(z3.Not(z3.Select(st.alloc, r)))
-        st.alloc = z3.Store(st.alloc, r, z3.BoolVal(True))
+        n = self.now(st)
+        st.assume(BIRTH(r) == n)
+        st.alloc = n + 1
         return Val(T.Ref(cls), r)
+
+    def advance_clock(self, st):
+        n = self.now(st)
+        m = z3.Int(fresh_name("now"))
+        st.assume(m >= n)
+        st.alloc = m
+        return n, m
 
     def assume_allocated(self, st, v: Val):
         if isinstance(v.ty, T.Ref) and not v.is_py:
-            if st.alloc is None:
-                st.alloc = z3.Const("alloc0", z3.ArraySort(T.RefSort, z3.BoolSort()))
-            st.assume(z3.Select(st.alloc, v.term))
+            st.assume(self.is_allocated(st, v.term))
 
     # ---- globals ------------------------------------------------------------------------------
     def resolve_global(self, n, node, st):
@@ -552,6 +574,11 @@ class Executor(ExprMixin, StmtMixin, LoopMixin):
                 post.env[m] = nv
         post.heap = st.heap
         res = None
+        # the callee may allocate: the clock after the call is at or after the clock before
+        # (so that `fresh(result)` in the callee's postcondition is consistent with "result is allocated now")
+        a_before, a_after = self.advance_clock(st)
+        pre.alloc = a_before
+        post.alloc = a_after
         if cc.returns is not None:
             res = Val(cc.returns, fresh(cc.returns, "ret_" + cc.target.split(".")[-1]))
             self.assume_allocated(st, res)
@@ -654,11 +681,8 @@ def _f_fresh_ref(ex, node, st):
     """fresh(x): x was not allocated in the pre-state."""
     v = ex.eval(node.args[0], st)
     old = ex.old_state
-    if old is None or old.alloc is None:
-        a0 = z3.Const("alloc0", z3.ArraySort(T.RefSort, z3.BoolSort()))
-    else:
-        a0 = old.alloc
-    return Val(T.BOOL, z3.Not(z3.Select(a0, lift(v))))
+    t0 = old.alloc if (old is not None and old.alloc is not None) else z3.Int("now0")
+    return Val(T.BOOL, BIRTH(lift(v)) >= t0)
 
 
 def _f_typed_forall(ex, node, st):
@@ -669,9 +693,7 @@ def _f_typed_forall(ex, node, st):
 def _f_allocated(ex, node, st):
     """allocated(x): x is in the CURRENT allocation set (objects created so far)."""
     v = ex.eval(node.args[0], st)
-    if st.alloc is None:
-        st.alloc = z3.Const("alloc0", z3.ArraySort(T.RefSort, z3.BoolSort()))
-    return Val(T.BOOL, z3.Select(st.alloc, lift(v)))
+    return Val(T.BOOL, ex.is_allocated(st, lift(v)))
 
 
 SPEC_FORMS = {
